@@ -48,8 +48,11 @@ CHECKS = {
         "comma/member sequence, so encoding always yields a JSON value. C06_roundtrip: for every schema and every value in the domain rt_ok "
         "(distinct property names and map keys, in-range integers, embedded members without their own additionalProperties), decoding the "
         "encoding with the model of UnmarshalJSON/unmarshalJSONInnerBody (shared key map, deletion of consumed keys, leftovers as "
-        "AdditionalProperties) returns the value. Tie: seeded schemas x boundary/random values through json.Marshal / json.Valid / "
-        "json.Unmarshal of the compiled package vs the extracted model.",
+        "AdditionalProperties) returns the value. C06_oneof_roundtrip / C06_oneof_roundtrip_discriminator (Model/OneOf.v: one Maybe field per "
+        "variant, MarshalJSON writes the set field, UnmarshalJSON tries the variants in order or switches on the discriminator): the value "
+        "comes back exactly when no EARLIER variant accepts its encoding, resp. when the encoding carries a discriminator name the generated "
+        "switch maps to its variant. Tie: seeded schemas x boundary/random values through json.Marshal / json.Valid / json.Unmarshal of the "
+        "compiled package vs the extracted model, oneOf components (no / partial / complete mapping) included.",
    note="Trusted: Coq kernel; extraction + driver.ml (incl. its JSON reader/printer); harness value builder/dumper. Hypotheses of the theorem "
         "(stdlib, not proved): number and time formatting round-trip. Modelled not verified: Go semantics of the emitted codec, encoding/json on "
         "leaf types. Known finding D28 (embedded member with additionalProperties) is outside rt_ok and reported as KNOWN-FINDING.",
@@ -59,7 +62,8 @@ CHECKS = {
    text="C07_conforms: for every schema and every value in the domain rt_ok, the JSON produced by the codec model validates against the "
         "schema under the independent validator of Spec/JsonSpec.v (required present, null only where nullable, declared types/formats, no "
         "duplicate keys, allOf members all satisfied by the one merged object, undeclared keys typed by additionalProperties). Tie: the bytes "
-        "the compiled package writes equal the model's JSON on every case, and the extracted validator accepts them.",
+        "the compiled package writes equal the model's JSON on every case, and the extracted validator accepts them. C07_oneof_conforms: a "
+        "oneOf value encodes to a document that validates against the schema of the variant whose field is set.",
    note="As C06. The validator is part of the specification (read it: ~60 lines). kin-openapi's VisitJSON is not used as a second opinion in "
         "this round.",
    ref="DESIGN.md section 4 (C06-C08)"),
@@ -70,7 +74,10 @@ CHECKS = {
         "model (frame lemma: an embedded member only deletes keys it declares). Losslessness is proved for documents produced by the encoder "
         "(C06_roundtrip); for arbitrary valid documents (optional subsets, null where allowed, extra keys, key permutations) it is checked, not "
         "proved: the tie decodes documents generated FROM the schema by an independent generator and their single-fault mutants, compares value, "
-        "re-encoding and error (which must name the property) with the model, and the generator's validity label with the Coq validator.",
+        "re-encoding and error (which must name the property) with the model, and the generator's validity label with the Coq validator. "
+        "C08_oneof_accepts_only_a_variant / C08_oneof_unknown_discriminator: a oneOf decoder accepts only what one of its variants' decoders "
+        "accepts (so the strictness theorems carry over) and rejects a discriminator value its switch does not list; tie: valid documents and "
+        "single changes of them (no / unknown / other variant's / ill-typed / duplicated discriminator, two variants' keys, non-objects).",
    note="As C06. PARTIAL: `validates s j -> decode succeeds and re-encodes to the kept part` is not a theorem in this round.",
    ref="DESIGN.md section 4 (C06-C08)"),
  "C01": dict(
